@@ -1177,7 +1177,8 @@ def mult_items(prop, tier, seed, oracles, opts=None, wextras=False):
     sh = [(2, [R(0, 1), R(0, 1)], 'N2[0=>1 x2]'), (2, [R(0, 1), R(0, 1), R(1, 0)], 'N2[0=>1 x2, 1=>0]'), (2, [R(0, 1), R(0, 1), R(1, 0), R(1, 0)], 'N2[0<=>1 x2]'),
           (1, [(0, 0, True, False), (0, 0, True, False)], 'N1[0=>0 x2]'), (2, [R(0, 1), U(0, 1), R(1, 0)], 'N2[0=>1 +unrecorded, 1=>0]'),
           (3, [R(0, 1), R(0, 1), R(1, 2), R(2, 1)], 'N3[tail 0=>1 x2 into ring 1<=>2]'), (3, [R(0, 1), R(1, 2), R(1, 2), R(2, 0)], 'N3[ring with doubled edge]'),
-          (3, [R(0, 1), R(0, 1), R(1, 0), R(1, 2)], 'N3[ring2 doubled + tail]')]
+          (3, [R(0, 1), R(0, 1), R(1, 0), R(1, 2)], 'N3[ring2 doubled + tail]'),
+          (3, [R(0, 2), R(0, 2), R(1, 2), R(2, 0), R(2, 1)], 'N3[two adopters of one target with unequal multiplicity]')]
     for (n, e, nm) in sh:
         base = F.build_ops(n, e, extras=True, wextras=wextras)
         for seq in F.drop_sequences(n, n):
